@@ -67,8 +67,8 @@ class ParticleBWR2(Particle):
             q2 = data_c["|q|2"]
             q02 = data_c["|q0|2"]
             if self.bw_l is None:
-                decay = self.decay[0]
-                self.bw_l = min(decay.get_l_list())
+                # lowest l over all decays: independent of declaration order
+                self.bw_l = min(d.get_min_l() for d in self.decay)
             ret = BWR2(data["m"], mass, width, q2, q02, self.bw_l, self.d)
         return ret
 
@@ -96,8 +96,8 @@ class ParticleBWRBelowThreshold(Particle):
         m0 = tf.where(m0 < m1 + m2, m_eff, m0)
         q02 = get_relative_p2(m0, m1, m2)
         if self.bw_l is None:
-            decay = self.decay[0]
-            self.bw_l = min(decay.get_l_list())
+            # lowest l over all decays: independent of declaration order
+            self.bw_l = min(d.get_min_l() for d in self.decay)
         ret = BWR2(data["m"], mass, width, q2, q02, self.bw_l, self.d)
         return ret
 
@@ -127,8 +127,8 @@ class ParticleBWRCoupling(Particle):
         decay = self.decay[0]
         q02 = 1.0  # get_relative_p2(m0, m1, m2)
         if self.bw_l is None:
-            decay = self.decay[0]
-            self.bw_l = min(decay.get_l_list())
+            # lowest l over all decays: independent of declaration order
+            self.bw_l = min(d.get_min_l() for d in self.decay)
         normal = Bprime_polynomial(self.bw_l, 1.0)
         gamma = (
             tf.sqrt(q2)
@@ -146,8 +146,8 @@ class ParticleBWRCoupling(Particle):
         from tf_pwa.formula import BWR_coupling_dom
 
         if self.bw_l is None:
-            decay = self.decay[0]
-            self.bw_l = min(decay.get_l_list())
+            # lowest l over all decays: independent of declaration order
+            self.bw_l = min(d.get_min_l() for d in self.decay)
         return BWR_coupling_dom(m, m0, g0, self.bw_l, m1, m2, d=self.d)
 
 
@@ -170,8 +170,8 @@ class ParticleBWR_normal(Particle):
             q2 = data_c["|q|2"]
             q02 = data_c["|q0|2"]
             if self.bw_l is None:
-                decay = self.decay[0]
-                self.bw_l = min(decay.get_l_list())
+                # lowest l over all decays: independent of declaration order
+                self.bw_l = min(d.get_min_l() for d in self.decay)
             ret = BWR_normal(
                 data["m"], mass, width, q2, q02, self.bw_l, self.d
             )
@@ -223,8 +223,8 @@ class ParticleGS(Particle):
             q = data_c["|q|"]
             q0 = data_c["|q0|"]
             if self.bw_l is None:
-                decay = self.decay[0]
-                self.bw_l = min(decay.get_l_list())
+                # lowest l over all decays: independent of declaration order
+                self.bw_l = min(d.get_min_l() for d in self.decay)
             ret = GS(
                 data["m"],
                 mass,
@@ -288,8 +288,8 @@ class ParticleKmatrix(Particle):
         self.beta1 = self.add_var("beta1", is_complex=True, fix=True)
         self.beta2 = self.add_var("beta2", is_complex=True)
         if self.bw_l is None:
-            decay = self.decay[0]
-            self.bw_l = min(decay.get_l_list())
+            # lowest l over all decays: independent of declaration order
+            self.bw_l = min(d.get_min_l() for d in self.decay)
 
     def get_amp(self, data, data_c=None, **kwargs):
         m = data["m"]
